@@ -97,6 +97,44 @@ def histories(f, data, rng):
         else:
             cand_b.relabel_nodes()
         yield "grafted-twice-other-candidate-edited", cand_a
+    # assembled from two separately built (and separately relabelled) parts whose clone names overlap: the subtree
+    # under clone i as one tree, the rest as another, the first grafted into the second
+    if f.K >= 2:
+        for relabel_sub, relabel_host in ((True, True), (True, False), (False, True)):
+            i = int(rng.integers(0, f.K))
+            inside = set()
+
+            def down(j):
+                inside.add(j)
+                for ch in f.children(j):
+                    down(ch)
+
+            down(i)
+            rest = [j for j in range(f.K) if j not in inside]
+            if not rest:
+                continue
+            sub_ids = sorted(inside)
+            fa = gen.AForest([f.blocks[j] for j in rest], [None if f.parent[j] is None else rest.index(f.parent[j]) for j in rest],
+                             f.outliers)
+            fb = gen.AForest([f.blocks[j] for j in sub_ids],
+                             [None if j == i else sub_ids.index(f.parent[j]) for j in sub_ids])
+            by_idx = {dp.idx: dp for dp in data}
+            host, _hn = gen.build_tree(fa, by_idx)
+            part_b, bn = gen.build_tree(fb, by_idx, order=fb.postorder(reverse_siblings=True))
+            if relabel_host:
+                host.relabel_nodes()
+            if relabel_sub:
+                part_b.relabel_nodes()
+            top_b = [x for x in part_b.roots][0]
+            sub = part_b.get_subtree(top_b)
+            parent_name = None
+            if f.parent[i] is not None:
+                want = sorted(f.blocks[f.parent[i]])
+                nd = host.node_data
+                parent_name = [x for x in host.nodes if sorted(dp.idx for dp in nd.get(x, [])) == want][0]
+            host.add_subtree(sub, parent=parent_name)
+            host.update()
+            yield "assembled-from-two-parts (relabelled: part %s, host %s)" % (relabel_sub, relabel_host), host
     # data-point detour: move a point to another clone / outliers and back
     movable = [(i, j) for i in range(f.K) for j in f.blocks[i] if len(f.blocks[i]) > 1]
     if movable and f.K >= 1:
@@ -192,7 +230,8 @@ def run(ctx):
     quick = ctx.tier == "quick"
     ctx.rule = ("every forest over <=3 points (<=4 thorough) x every outlier subset x alpha in {0.05,0.4,1,3,50} x outlier "
                 "prior in {0,1e-3,0.2} (with cluster sizes 1-3) x up to 7 construction histories (post-order, shuffled "
-                "siblings, incremental with dict hops, relabelled, from_dict, prune-regraft detour, data-point detour); "
+                "siblings, incremental with dict hops, relabelled, from_dict, prune-regraft detour, assembled from two separately "
+                "relabelled parts with overlapping clone names, data-point detour); "
                 "random trees to 12 points, D<=3, and trees of 258-330 clones; distinct = (canonical tree, alpha, outlier prior)")
     ctx.assumptions = ["root-count penalty normaliser -(R-1)log1000 - log((1-1000^-R)/(1-1/1000)) frozen from the pinned code",
                        "cases whose data term (last grid entry / row log-sum of the root vector) is not inside the C02 underflow window (band > 1e-10) are skipped",
